@@ -2326,7 +2326,7 @@ def confirm_replays(ctx, world):
 # PROPOSED FINDING non-ascii-user-does-not-move-on, repair fixes/C07-06-non-ascii-login-name-skips-cookie.patch: until the owner
 # has applied it to /repo the stream only RECORDS the behaviour (distribution key `proposed-finding:...`, a note); set
 # JUDGE_NON_ASCII_USER = True with the repair and the unrepaired behaviour is reported as a violation with a replay.
-JUDGE_NON_ASCII_USER = False
+JUDGE_NON_ASCII_USER = True
 NON_ASCII_USERS = ('m\u00fcller', '\u0418\u0432\u0430\u043d')
 
 
